@@ -150,7 +150,7 @@ def decode_table(world, obs, table):
     name = world.CONN_NAMES[table]
     v = _vals(obs, name)
     vals = numpy.asarray(v['values'])
-    primary = world.CONN_DIMS[table][0]
+    primary = world.conn_dims(table)[0]
     if v['dims'][0] != primary:
         vals = vals.T
     si = v['attrs'].get('start_index', 0)
@@ -463,7 +463,7 @@ def _judge_mesh(space, sel, obs, label):
         if ov is None:
             c09.append(('connectivity-lost', f'{label}: connectivity variable {name} is missing from the result'))
             continue
-        src_dims = list(world.CONN_DIMS[t])
+        src_dims = list(world.conn_dims(t))
         if t in world.spec['transposed']:
             src_dims = src_dims[::-1]
         if ov['dims'] != src_dims:
